@@ -288,6 +288,12 @@ def run_check(pid, tier, only=None, keep=False, parallel=None):
                 continue
             if tier == "quick" and h["tier"] != "quick":
                 continue
+            # tier=extended: harnesses that were written but never seen to finish within the machine's memory /
+            # a few hours; they belong to no registered command (./check <ID> --tier extended runs only them)
+            if tier == "thorough" and h["tier"] == "extended":
+                continue
+            if tier == "extended" and h["tier"] != "extended":
+                continue
             if tier == "quick" and h.get("qprops") and pid not in h["qprops"].split(","):
                 continue  # an expensive kernel runs in the quick tier only of the properties named in qprops=
             if only and not re.search(only, h["fn"]):
